@@ -26,24 +26,32 @@ ERRNOS = {"mkdtemp": _errno.EACCES, "open": _errno.EACCES, "write": _errno.ENOSP
 
 
 class Ctl:
-    """mode: None | 'kill' | 'fault'; index = number of effects completed before the interruption."""
+    """Interruption control of one save.
+    kill_at  = k: the process dies (os._exit) just before effect number k;
+    fault_at = k: effect number k raises OSError(err) instead of being performed (only FAULTABLE kinds);
+    persistent:   after that, every later attempt of the SAME kind fails too (a rename that is refused again
+                  on retry); effects are numbered in the order they are attempted, failed ones included."""
 
-    def __init__(self, mode=None, index=-1, err=None):
-        self.mode, self.index, self.err = mode, index, err
+    def __init__(self, mode=None, index=-1, err=None, kill_at=None, fault_at=None, persistent=False):
+        self.kill_at = index if mode == "kill" else kill_at
+        self.fault_at = index if mode == "fault" else fault_at
+        self.err, self.persistent = err, persistent
+        self.failed_kind = None
         self.n = 0
         self.log: list = []
         self.handles: dict[int, int] = {}      # id(ExternalTensor) -> handle
-        self.on_effect = None                  # optional hook(kind) (parallel mode statistics)
 
     def tick(self, kind: str) -> None:
         k = self.n
-        if self.mode == "kill" and k == self.index:
+        if self.kill_at is not None and k == self.kill_at:
             os._exit(77)
         self.n += 1
-        if self.mode == "fault" and k == self.index and kind in FAULTABLE:
+        if kind in FAULTABLE and ((self.fault_at is not None and k == self.fault_at)
+                                  or (self.persistent and self.failed_kind == kind)):
+            self.failed_kind = kind
             self.log.append(("fail", kind))
             e = self.err or ERRNOS[kind]
-            raise OSError(e, os.strerror(e) + " (injected)")
+            raise OSError(e, os.strerror(e) + " (injected)")   # EACCES/EPERM -> PermissionError
 
 
 class _PathProxy:
@@ -81,6 +89,9 @@ class _PathProxy:
                     r = real(a, b)
                 except OSError:
                     c.log.append(("samefile", os.fspath(a), os.fspath(b), False))
+                    raise
+                except Exception:      # ValueError: embedded null byte
+                    c.log.append(("samefile_err", os.fspath(a), os.fspath(b)))
                     raise
                 c.log.append(("samefile", os.fspath(a), os.fspath(b), r))
                 return r
@@ -363,8 +374,14 @@ def build(scn: dict, root: str) -> Built:
         if k == "mem":
             obj = ir.Tensor(np.frombuffer(_bytes(t["seed"], t["n"]), dtype=np.uint8).copy(), name=name)
         elif k in ("ext", "small"):
-            obj = ir.ExternalTensor(t["file"], t["off"], t["len"], ir.DataType.UINT8,
-                                    shape=ir.Shape([t["len"]]), name=name, base_dir=root)
+            if t.get("abs"):        # programmatic construction: absolute location, no base_dir
+                loc, bdir = os.path.join(root, t["file"]), ""
+            elif t.get("base"):     # a data file of the same relative location in another directory
+                loc, bdir = os.path.relpath(t["file"], t["base"]), os.path.join(root, t["base"])
+            else:
+                loc, bdir = t["file"], root
+            obj = ir.ExternalTensor(loc, t["off"], t["len"], ir.DataType.UINT8,
+                                    shape=ir.Shape([t["len"]]), name=name, base_dir=bdir)
             if t.get("preload"):
                 obj.numpy()
             h = len(b.ext)
@@ -432,11 +449,11 @@ def save_kwargs(scn: dict, cb_log: list | None = None) -> dict:
     return kw
 
 
-def run_save(scn: dict, root: str, mode=None, index=-1, err=None):
+def run_save(scn: dict, root: str, mode=None, index=-1, err=None, persistent=False):
     """Build the scenario, run ir.save under the shim.  Returns (built, ctl, outcome)."""
     import onnx_ir as ir
     b = build(scn, root)
-    ctl = Ctl(mode, index, err)
+    ctl = Ctl(mode, index, err, persistent=persistent)
     for h, t in enumerate(b.ext):
         ctl.handles[id(t)] = h
 
@@ -452,7 +469,7 @@ def run_save(scn: dict, root: str, mode=None, index=-1, err=None):
     return b, ctl, outcome
 
 
-def run_killed(scn: dict, root: str, index: int):
+def run_killed(scn: dict, root: str, index: int, fault_at=None, err=None, persistent=False):
     """Run the save in a forked child that dies (os._exit) just before effect `index`.
     Returns the child's exit status: 77 = killed at the point, 0 = save returned, 3 = save raised."""
     import onnx_ir as ir
@@ -461,7 +478,7 @@ def run_killed(scn: dict, root: str, index: int):
     if pid == 0:
         code = 0
         try:
-            ctl = Ctl("kill", index)
+            ctl = Ctl("kill", index, err, fault_at=fault_at, persistent=persistent)
             for h, t in enumerate(b.ext):
                 ctl.handles[id(t)] = h
 
@@ -498,6 +515,8 @@ class Canon:
         rel = os.path.relpath(p, self.root)
         out = []
         for c in rel.split(os.sep):
+            if "\0" in c:
+                c = "NUL"
             m = _TMP_RE.match(c)
             if m and c not in self.initial:
                 c = "TMP:" + m.group(1)
@@ -554,6 +573,8 @@ def canon_log(log: list, canon: Canon) -> list:
                 out.append(("mkdtemp", canon.comps(e[1])))
         elif k == "samefile":
             out.append(("samefile", canon.comps(e[1]), canon.comps(e[2]), bool(e[3])))
+        elif k == "samefile_err":
+            out.append(("samefile_err", canon.comps(e[1]), canon.comps(e[2])))
         elif k == "open":
             out.append(("open", canon.comps(e[1]), e[2]))
         elif k == "callback":
